@@ -473,8 +473,6 @@ class AbstractExcelInPython(ABC):
             return text[0]
         if num_chars < 0:
             return '#ERROR!'
-        if not text:
-            return self.EmptyCell()
         if len(text) < num_chars:
             return text
         return text[0:num_chars]
@@ -485,7 +483,7 @@ class AbstractExcelInPython(ABC):
         if num_chars < 0:
             return '#VALUE!'
         if start_num > len(text):
-            return self.EmptyCell()
+            return ''
 
         return text[start_num - 1:start_num + num_chars - 1]
 
@@ -632,8 +630,6 @@ class AbstractExcelInPython(ABC):
             return text[len(text) - 1]
         if num_chars < 0:
             return '#ERROR!'
-        if not text:
-            return self.EmptyCell()
         if len(text) < num_chars:
             return text
         return text[len(text) - num_chars:]
